@@ -107,8 +107,8 @@ fn check_tree(tree: &Node, trailer: &[u8], rep: &mut Report, replay: Value) -> O
 pub fn trees(ctx: &Ctx) -> Report {
     let n = ctx.n(30_000, 3_000_000);
     let mut rep = par_cases(ctx, "trees", n, ctx.secs(20, 400), |i, rng, rep| {
-        let big = i % 500 == 499;
-        let depth = 1 + rng.usize(6);
+        let big = i % 500 == 499 && !ctx.tiny;
+        let depth = 1 + rng.usize(if ctx.tiny { 3 } else { 6 });
         let tree = gen_tree(rng, depth, big);
         let tl = rng.len_biased(20);
         let trailer = rng.bytes(tl);
@@ -125,6 +125,9 @@ pub fn trees(ctx: &Ctx) -> Report {
     // length-form boundaries, exhaustively on both sides, primitive and constructed
     let mut b = Report::new();
     for &len in &[0usize, 1, 126, 127, 128, 129, 254, 255, 256, 257, 65534, 65535, 65536, 65537, (1 << 24) - 1, 1 << 24, (1 << 24) + 1] {
+        if ctx.tiny && len > 300 {
+            continue;
+        }
         for cons in [false, true] {
             let tree = if cons {
                 // a constructed node whose body has exactly `len` bytes
@@ -299,7 +302,7 @@ pub fn integers(ctx: &Ctx) -> Report {
 pub fn nonminimal(ctx: &Ctx) -> Report {
     let n = ctx.n(30_000, 3_000_000);
     par_cases(ctx, "nonminimal", n, ctx.secs(15, 300), |i, rng, rep| {
-        let depth = 1 + rng.usize(5);
+        let depth = 1 + rng.usize(if ctx.tiny { 3 } else { 5 });
         let tree = gen_tree(rng, depth, false);
         let mut er = rng.fork();
         let bytes = Enc::random(&mut er).to_vec(&tree);
